@@ -38,7 +38,10 @@ pub fn dump_adts<'tcx>(cx: &Cx<'tcx>) -> J {
                 .fields
                 .iter()
                 .map(|f| {
-                    let fty = tcx.type_of(f.did).instantiate_identity().skip_norm_wip();
+                    let fty0 = tcx.type_of(f.did).instantiate_identity();
+                    let fty = tcx
+                        .try_normalize_erasing_regions(env, fty0)
+                        .unwrap_or_else(|_| fty0.skip_norm_wip());
                     J::obj()
                         .put_s("name", f.name.to_string())
                         .put_s("ty", cx.ty_str(fty))
